@@ -45,16 +45,25 @@ pub fn run(ctx: &Ctx) -> Report {
                 note_classes(&mut rep, kc, bc);
                 let shape = if n == 1 { [Shape::Block, Shape::BlockB2b, Shape::BlockInout, Shape::BackendBlockInplace][(i as usize + j as usize) % 4] } else { [Shape::Blocks, Shape::BlocksInout, Shape::BackendPar, Shape::BackendParInplace][(i as usize) % 4] };
                 for encrypt in [true, false] {
-                    let mut out = data.clone();
+                    // input and output windows at independent byte offsets 0..15 inside larger buffers
+                    // (aligned-access instructions on a caller's buffer abort the process: the parent
+                    // check reports that death)
+                    let (oi, oo) = (rng.below(16), rng.below(16));
+                    let mut inbuf = vec![0u8; data.len() + 16];
+                    inbuf[oi..oi + data.len()].copy_from_slice(&data);
+                    let mut outbuf = vec![0x3Cu8; data.len() + 16];
                     let separate = shape.needs_input() || (i + j) % 2 == 1;
+                    if !separate {
+                        outbuf[oo..oo + data.len()].copy_from_slice(&data);
+                    }
                     let r = catch_unwind(AssertUnwindSafe(|| {
                         if separate {
-                            out.iter_mut().for_each(|b| *b = 0x3C);
-                            inst.run(encrypt, shape, Some(&data), &mut out)
+                            inst.run(encrypt, shape, Some(&inbuf[oi..oi + data.len()]), &mut outbuf[oo..oo + data.len()])
                         } else {
-                            inst.run(encrypt, shape, None, &mut out)
+                            inst.run(encrypt, shape, None, &mut outbuf[oo..oo + data.len()])
                         }
                     }));
+                    let out = outbuf[oo..oo + data.len()].to_vec();
                     rep.case(case_hash(&id, &key, &data, shape as u64 * 2 + encrypt as u64), gen::class_is_random(kc) || gen::class_is_random(bc));
                     match r {
                         Ok(()) => acc = acc.rotate_left(7) ^ digest(&out),
